@@ -25,8 +25,7 @@ LEVEL_TEXT = ("Byte equality with the single-process matrix is demanded for: eve
 LEVEL_NOTE = "Trusted: the controlled pool covers the completion orders a real pool can produce for the task counts explored; fork start method."
 RULE = "case = (configuration, pool kind, worker count, completion permutation | delay plan | rebuild history); non-trivial when >= 2 tasks or >= 2 builds; distinct by configuration digest and schedule"
 ASSUMPTIONS = ["the library reaches its pool through the module attribute slopecovariance.multiprocessing"]
-REQUIRED = ["slopecovariance.py:CovarianceMatrix._make_covariance_matrix_mp", "slopecovariance.py:CovarianceMatrix._make_covariance_matrix",
-            "slopecovariance.py:wfs_covariance_mpwrap"]
+REQUIRED = ["slopecovariance.py:CovarianceMatrix.make_covariance_matrix", "slopecovariance.py:wfs_covariance_mpwrap"]
 REQUIRED_COUNTERS = ["controlled_builds", "real_pool_builds", "rebuild_histories", "distinct_completion_orders_controlled", "real_completion_orders_logged"]
 TIMEOUT = {"quick": 1200, "thorough": 7200}
 
